@@ -52,6 +52,11 @@ SCENIC_EXPRS = [
     "x implies y", "altitude to x", "minimum distance to x", "top front left of x",
     "ego", "workspace", "globalParameters", "globalParameters.x", "initial scenario",
     "position of x", "x in y", "new Object in r, facing toward p",
+    # plain Python expressions that are (in)valid targets, for the same positions
+    "()", "[]", "(x, 3 deg)", "[x, new Object]", "*x", "x.y", "x[0]", "-x", "x if y else z",
+    "lambda: x", "f()", "{}", "{1}", "...", "None", "True", "__debug__", "3", "'s'", "f'{x}'",
+    "x < y", "x and y", "not x", "[y for y in z]", "(y for y in z)", "{k: v for k in z}",
+    "await x", "yield", "x := 3", "x[1:2]", "x, y", "(x)", "((x, y), [z, *w])",
 ]
 
 TARGET_POSITIONS = [
@@ -169,6 +174,23 @@ def own_expressions(src):
     return out or ["new Object"]
 
 
+_DYNAMIC_HEADS = ["behavior VfB():", "monitor VfM():", "scenario VfS():\n    compose:",
+                  "scenario VfT():\n    setup:"]
+
+
+def _wrap_dynamic(stmt, indent, c):
+    """Half of the statements inserted at top level are put inside a behavior / monitor /
+    scenario block of their own (local variables are compiled differently there)."""
+    sel = (c // 997) % 8
+    if indent or sel >= len(_DYNAMIC_HEADS) or stmt.startswith(
+            ("behavior", "monitor", "scenario", "@", "class", "model", "param", "simulator")):
+        return stmt
+    head = _DYNAMIC_HEADS[sel]
+    pad = " " * (8 if "\n" in head else 4)
+    tail = "pass" if "setup" in head else "wait"
+    return head + "\n" + "\n".join(pad + ln for ln in stmt.split("\n")) + "\n" + pad + tail
+
+
 def apply_one(src, mut):
     kind, a, b, c = mut
     n = len(src)
@@ -224,7 +246,7 @@ def apply_one(src, mut):
         i = c % (len(lines) + 1)
         ref = lines[i] if i < len(lines) and lines[i].strip() else (lines[i - 1] if i else "")
         ind = _indent_of(ref)
-        lines[i:i] = [ind + ln for ln in stmt.split("\n")]
+        lines[i:i] = [ind + ln for ln in _wrap_dynamic(stmt, ind, c).split("\n")]
         return "\n".join(lines)
     toks = tokens(src)
     if kind == "numrep":
@@ -309,7 +331,7 @@ def apply_one(src, mut):
         # take the indentation of the line it is inserted before (or of the previous line)
         ref = lines[i] if i < len(lines) and lines[i].strip() else (lines[i - 1] if i else "")
         ind = _indent_of(ref)
-        new = [ind + ln for ln in stmt.split("\n")]
+        new = [ind + ln for ln in _wrap_dynamic(stmt, ind, c).split("\n")]
         lines[i:i] = new
         return "\n".join(lines)
     raise ValueError(kind)
@@ -336,5 +358,8 @@ def selfcheck():
         raise HarnessError("c10 tdel")
     if apply("a\nb\n", [["join", 0, 0, 0]]) != "ab\n":
         raise HarnessError("c10 join")
+    if "(x := new Object)" not in apply("x = 1\n", [["move", 0, 38, 997]]) or \
+            "behavior VfB():" not in apply("x = 1\n", [["move", 0, 38, 0]]):
+        raise HarnessError("c10 move/wrap: " + repr(apply("x = 1\n", [["move", 0, 38, 0]])))
     if "del new Object" not in apply("x = 1\n", [["move", 0, 12, 0]]):
         raise HarnessError("c10 move: " + repr(apply("x = 1\n", [["move", 0, 12, 0]])))
